@@ -29,6 +29,10 @@ namespace trompeloeil
 {
 struct lifetime_monitor;
 
+inline
+void
+chain_lifetime_monitor(lifetime_monitor* monitor, lifetime_monitor* older) noexcept;
+
 template <typename T>
 class deathwatched : public T
 {
@@ -52,6 +56,7 @@ public:
   noexcept
   {
     auto lock = get_lock();
+    chain_lifetime_monitor(monitor, trompeloeil_lifetime_monitor.leak());
     trompeloeil_lifetime_monitor = monitor;
     return trompeloeil_lifetime_monitor.leak();
   }
@@ -97,7 +102,11 @@ struct lifetime_monitor : public expectation
       std::ostringstream os;
       os << "Object " << object_name << " is still alive";
       send_report<specialized>(severity::nonfatal, loc, os.str());
-      object_monitor = nullptr; // prevent its death poking this cadaver
+      // prevent its death poking this cadaver
+      for (auto p = &object_monitor; *p; p = &(*p)->older_monitor)
+      {
+        if (*p == this) { *p = older_monitor; break; }
+      }
     }
   }
 
@@ -129,6 +138,7 @@ struct lifetime_monitor : public expectation
                                             std::forward<T>(t)...);
     sequences = std::move(seq);
   }
+  lifetime_monitor  *older_monitor = nullptr;
 private:
   atomic<bool>       died{false};
   lifetime_monitor *&object_monitor;
@@ -139,13 +149,23 @@ private:
   std::unique_ptr<sequence_handler_base>  sequences = detail::make_unique<sequence_handler<0>>();
 };
 
+inline
+void
+chain_lifetime_monitor(lifetime_monitor* monitor, lifetime_monitor* older) noexcept
+{
+  monitor->older_monitor = older;
+}
+
 template <typename T>
 deathwatched<T>::~deathwatched()
 {
   auto lock = get_lock();
   if (trompeloeil_lifetime_monitor)
   {
-    trompeloeil_lifetime_monitor->notify();
+    for (auto m = trompeloeil_lifetime_monitor.leak(); m; m = m->older_monitor)
+    {
+      m->notify();
+    }
     return;
   }
   std::ostringstream os;
